@@ -117,6 +117,6 @@ SPEC = Spec(
         "the otlp-grpc harness runs with a go.mod COPY whose indirect dependency klauspost/compress is pointed at the cached v1.18.0 "
         "(v1.17.11 is not in the offline module cache); /repo is not touched",
         "durations fit int64 nanoseconds without overflow",
-        "the theorems are about the repaired retry loop (fix commit in /tmp/wt-C05: poll stopCh, then ctx.Err(), before the blocking select)",
+        "the theorems are about the repaired retry loop (fix commit cf360440f in /repo: poll stopCh, then ctx.Err(), before the blocking select)",
     ],
 )
